@@ -13,7 +13,7 @@
      which `Search` + `SensitivityListChecker::search_decl` make them (statement first, then the
      nested statements; all conditions of an `if` before its branches), with the spans the Rust
      code passes; `analyze_designator` (keeps the textually smallest position: repaired code)
-     and `analyze_designator_old` (`or_insert_with`: first visited), `ev_*` with `old := true`
+     and `analyze_designator_old` (`or_insert_with`: first visited), `ev_*` with version `VPreF14`
      gives every procedure-call actual the span of the whole call (pre-fix code, F15);
      `get_likely_process_category` / `is_likely_clocked`; `lint_sensitivity_list`.
 
@@ -27,9 +27,13 @@ Open Scope N_scope.
 Definition span := (N * N)%type.
 Definition sp_start (s : span) : N := fst s.
 
+(* interface mode of a subprogram parameter *)
+Inductive mode := MIn | MOut | MInOut.
+
 Inductive ent_kind :=
-| KSignal      (* AnyEntKind::Object(Object{class: Signal}) *)
-| KFun1Bool    (* AnyEntKind::Overloaded with exactly one formal and return type BOOLEAN *)
+| KSignal                                        (* AnyEntKind::Object(Object{class: Signal}), not a parameter *)
+| KOverloaded (formals : list N) (ret_bool : bool) (* AnyEntKind::Overloaded: the formals of its signature; return type BOOLEAN *)
+| KParam (m : mode) (is_sig : bool)              (* AnyEntKind::Object that `is_param()`: its mode; class signal? *)
 | KOther.
 Definition desig := option N.
 
@@ -37,7 +41,6 @@ Inductive attr_kind :=
 | AkImage      (* AttributeDesignator::Ident(_) | Image *)
 | AkEvent      (* AttributeDesignator::Signal(SignalAttribute::Event) *)
 | AkOther.
-Inductive mode := MIn | MOut | MInOut.   (* mode of the formal an actual is associated with: SPEC only *)
 
 Inductive expr : Type :=
 | ELit (sp : span)
@@ -74,6 +77,10 @@ Definition waveform := option (list wave_elem).           (* None = unaffected *
 
 Inductive iter_scheme := IFor (r : drange) | IWhile (c : expr) | INone.
 
+(* one association element of a procedure call: the mode of the formal it is associated with (the static
+   semantics of the call: SPEC only), the formal part of a named association, the actual *)
+Record assoc := mkAssoc { a_mode : mode; a_formal : option expr; a_actual : expr }.
+
 Inductive stmt : Type :=
 | SSigAssign (t : expr) (r : rhs waveform)
 | SVarAssign (t : expr) (r : rhs expr)
@@ -82,7 +89,7 @@ Inductive stmt : Type :=
 | SIf (branches : list (expr * list stmt)) (els : list stmt)
 | SCase (sel : expr) (alts : list (list stmt))
 | SLoop (it : iter_scheme) (body : list stmt)
-| SCall (sp : span) (prefix : expr) (args : list (mode * expr))
+| SCall (sp : span) (prefix : expr) (args : list assoc)
 | SAssert (c : expr) (rep sev : option expr)
 | SReport (m : expr) (sev : option expr)
 | SNext (c : option expr)
@@ -98,7 +105,7 @@ Record process := mkProcess { p_kw : span; p_sens : option sens; p_body : list s
 (* shared helpers                                                                               *)
 (* ------------------------------------------------------------------------------------------ *)
 Definition is_signal (root : N -> ent_kind) (i : N) : bool :=
-  match root i with KSignal => true | _ => false end.
+  match root i with KSignal => true | KParam _ s => s | _ => false end.
 
 Fixpoint memN (k : N) (l : list N) : bool :=
   match l with [] => false | x :: r => (k =? x) || memN k r end.
@@ -193,7 +200,7 @@ Fixpoint occ_stmt (s : stmt) : list mention :=
       ++ flat_map occ_stmt els
   | SCase sel alts => occ_val sel ++ flat_map (flat_map occ_stmt) alts
   | SLoop it body => occ_iter it ++ flat_map occ_stmt body
-  | SCall _ _ args => flat_map (fun a : mode * expr => occ_expr (role_of_mode (fst a)) (snd a)) args
+  | SCall _ _ args => flat_map (fun a : assoc => occ_expr (role_of_mode (a_mode a)) (a_actual a)) args
   | SAssert c rep sev => occ_val c ++ opt_list occ_val rep ++ opt_list occ_val sev
   | SReport m sev => occ_val m ++ opt_list occ_val sev
   | SNext c => opt_list occ_val c
@@ -247,6 +254,16 @@ Fixpoint fam_expr (e : expr) : bool :=
   | EQualified _ x => fam_expr x
   | EParen _ x => fam_expr x
   end.
+(* a name that is written (actual of an out-mode formal): the walker reads its index expressions AND its slice
+   ranges (analyze_written_name); anything that is not a name is analysed as an expression *)
+Fixpoint fam_written (e : expr) : bool :=
+  match e with
+  | EDesig _ _ => true
+  | ESelected _ p _ => fam_written p
+  | ESlice _ p bounds => fam_written p && forallb fam_expr bounds
+  | ECall _ p args => fam_written p && forallb fam_expr args
+  | _ => fam_expr e
+  end.
 Definition fam_opt (o : option expr) : bool := match o with Some e => fam_expr e | None => true end.
 Definition fam_range (r : range) : bool :=
   match r with RRange l h => fam_expr l && fam_expr h | RAttr a => fam_expr a end.
@@ -282,7 +299,11 @@ Fixpoint fam_stmt (s : stmt) : bool :=
       && forallb fam_stmt els
   | SCase sel alts => fam_expr sel && forallb (forallb fam_stmt) alts
   | SLoop it body => fam_iter it && forallb fam_stmt body
-  | SCall _ _ args => forallb (fun a : mode * expr => fam_expr (snd a)) args
+  | SCall _ _ args =>
+      forallb (fun a : assoc => match a_mode a with
+                                | MOut => fam_written (a_actual a)
+                                | _ => fam_expr (a_actual a)
+                                end) args
   | SAssert c rep sev => fam_expr c && nil_b (opt_list occ_val rep) && nil_b (opt_list occ_val sev)
   | SReport m sev => fam_expr m && nil_b (opt_list occ_val sev)
   | SNext c => fam_opt c
@@ -292,24 +313,6 @@ Fixpoint fam_stmt (s : stmt) : bool :=
   | SWait _ _ _ => false
   end.
 Definition in_family (p : process) : bool := forallb fam_stmt (p_body p).
-
-(* `no_out_actuals`: an actual of an out-mode formal does not itself denote a signal (excludes
-   finding F20: the walker analyses the actuals of all modes) *)
-Fixpoint no_out_stmt (s : stmt) : bool :=
-  match s with
-  | SIf branches els =>
-      forallb (fun b : expr * list stmt => forallb no_out_stmt (snd b)) branches && forallb no_out_stmt els
-  | SCase _ alts => forallb (forallb no_out_stmt) alts
-  | SLoop _ body => forallb no_out_stmt body
-  | SCall _ _ args =>
-      forallb (fun a : mode * expr =>
-                 match fst a with
-                 | MOut => mentions_eqb (occ_expr RValue (snd a)) (occ_expr RNone (snd a))
-                 | _ => true
-                 end) args
-  | _ => true
-  end.
-Definition no_out_actuals (p : process) : bool := forallb no_out_stmt (p_body p).
 
 (* token positions are consistent with the text: the demanded reads, listed in textual order,
    start at strictly increasing tokens *)
@@ -356,6 +359,85 @@ Fixpoint ev_expr (ro : bool) (e : expr) (sp : span) {struct e} : list event :=
 Definition ev (e : expr) : list event := ev_expr false e (span_of e).
 Definition ev_opt (o : option expr) : list event := opt_list ev o.
 
+(* Name::get_suffix_reference *)
+Definition suffix_ref (e : expr) : desig :=
+  match e with EDesig _ d => d | ESelected _ _ suf => suf | _ => None end.
+
+(* the guard `Expression::Name(name)` of analyze_procedure_call *)
+Definition is_name (e : expr) : bool :=
+  match e with
+  | EDesig _ _ | ESelected _ _ _ | ESlice _ _ _ | EAttr _ _ _ _ | ECall _ _ _ => true
+  | _ => false
+  end.
+
+(* analyze_written_name: only the expressions within indexes and slices are read (a slice range goes through
+   analyze_discrete_range: here its expressions in order) *)
+Fixpoint ev_written (e : expr) : list event :=
+  match e with
+  | EDesig _ _ => []
+  | ESelected _ p _ => ev_written p
+  | ESlice _ p bounds => ev_written p ++ flat_map (fun a => ev_expr false a (span_of a)) bounds
+  | ECall _ p args => ev_written p ++ flat_map (fun a => ev_expr false a (span_of a)) args
+  | _ => ev_expr false e (span_of e)     (* Attribute => analyze_attribute_name; the other constructors are not names *)
+  end.
+
+(* parameter_object + mode() *)
+Definition param_mode (root : N -> ent_kind) (i : N) : option mode :=
+  match root i with KParam m _ => Some m | _ => None end.
+(* formal_parameter: the formal denoted by the formal part of a named association (selected, indexed, sliced,
+   or converted: `conv(formal) => actual`) *)
+Fixpoint formal_parameter (root : N -> ent_kind) (e : expr) : option mode :=
+  match e with
+  | EDesig _ (Some i) => param_mode root i
+  | ESelected _ p _ => formal_parameter root p
+  | ESlice _ p _ => formal_parameter root p
+  | ECall _ p args =>
+      match formal_parameter root p with
+      | Some m => Some m
+      | None => match args with
+                | [a] => if is_name a then formal_parameter root a else None
+                | _ => None
+                end
+      end
+  | _ => None
+  end.
+(* is_out_mode_formal(call, idx, elem); false when the callee or the formal is not resolved *)
+Definition is_out_mode_formal (root : N -> ent_kind) (callee : expr) (idx : nat) (formal : option expr) : bool :=
+  match suffix_ref callee with
+  | None => false
+  | Some r =>
+      match root r with
+      | KOverloaded formals _ =>
+          match (match formal with
+                 | Some fe => formal_parameter root fe
+                 | None => match nth_error formals idx with Some f => param_mode root f | None => None end
+                 end) with
+          | Some MOut => true
+          | _ => false
+          end
+      | _ => false
+      end
+  end.
+
+(* three versions of the code: today; before 8599f6f (F20: every actual is read); before d3610d9 (F14/F15: every
+   actual is read with the span of the call, first visited position kept) *)
+Inductive version := VNow | VPreF20 | VPreF14.
+
+(* analyze_procedure_call *)
+Fixpoint ev_args (root : N -> ent_kind) (ver : version) (sp : span) (callee : expr) (idx : nat) (args : list assoc)
+  : list event :=
+  match args with
+  | [] => []
+  | a :: r =>
+      (match ver with
+       | VPreF14 => ev_expr false (a_actual a) sp
+       | VPreF20 => ev_expr false (a_actual a) (span_of (a_actual a))
+       | VNow => if is_name (a_actual a) && is_out_mode_formal root callee idx (a_formal a)
+                 then ev_written (a_actual a)
+                 else ev_expr false (a_actual a) (span_of (a_actual a))
+       end) ++ ev_args root ver sp callee (S idx) r
+  end.
+
 (* analyze_range / analyze_discrete_range *)
 Definition ev_range (r : range) : list event :=
   match r with RRange l h => ev l ++ ev h | RAttr a => ev a end.
@@ -377,9 +459,8 @@ Definition ev_rhs {A} (f : A -> list event) (r : rhs A) : list event :=
 Definition ev_iter (it : iter_scheme) : list event :=
   match it with IFor r => ev_drange r | IWhile c => ev c | INone => [] end.
 
-(* `search_decl` on one sequential statement: its own expressions.  old = pre-fix code: the
-   actuals of a procedure call are analysed with the span of the call *)
-Definition ev_own (old : bool) (s : stmt) : list event :=
+(* `search_decl` on one sequential statement: its own expressions *)
+Definition ev_own (root : N -> ent_kind) (ver : version) (s : stmt) : list event :=
   match s with
   | SSigAssign _ r => ev_rhs ev_wave r
   | SVarAssign _ r => ev_rhs ev r
@@ -388,8 +469,7 @@ Definition ev_own (old : bool) (s : stmt) : list event :=
   | SIf branches _ => flat_map (fun b : expr * list stmt => ev (fst b)) branches
   | SCase sel _ => ev sel
   | SLoop it _ => ev_iter it
-  | SCall sp _ args =>
-      flat_map (fun a : mode * expr => ev_expr false (snd a) (if old then sp else span_of (snd a))) args
+  | SCall sp callee args => ev_args root ver sp callee 0 args
   | SAssert c _ _ => ev c
   | SReport m _ => ev m
   | SNext c => ev_opt c
@@ -400,17 +480,18 @@ Definition ev_own (old : bool) (s : stmt) : list event :=
   end.
 
 (* `LabeledSequentialStatement::search`: search_decl first, then the nested statements *)
-Fixpoint ev_stmt (old : bool) (s : stmt) : list event :=
-  ev_own old s ++
+Fixpoint ev_stmt (root : N -> ent_kind) (ver : version) (s : stmt) : list event :=
+  ev_own root ver s ++
   match s with
   | SIf branches els =>
-      flat_map (fun b : expr * list stmt => flat_map (ev_stmt old) (snd b)) branches
-      ++ flat_map (ev_stmt old) els
-  | SCase _ alts => flat_map (flat_map (ev_stmt old)) alts
-  | SLoop _ body => flat_map (ev_stmt old) body
+      flat_map (fun b : expr * list stmt => flat_map (ev_stmt root ver) (snd b)) branches
+      ++ flat_map (ev_stmt root ver) els
+  | SCase _ alts => flat_map (flat_map (ev_stmt root ver)) alts
+  | SLoop _ body => flat_map (ev_stmt root ver) body
   | _ => []
   end.
-Definition ev_stmts (old : bool) (ss : list stmt) : list event := flat_map (ev_stmt old) ss.
+Definition ev_stmts (root : N -> ent_kind) (ver : version) (ss : list stmt) : list event :=
+  flat_map (ev_stmt root ver) ss.
 
 (* SensitivityListChecker *)
 Record checker := mkChecker { superfluous : list (N * span); found : list (N * span) }.
@@ -451,10 +532,6 @@ Fixpoint suffix_ref_disregard_index (e : expr) : desig :=
   | ECall _ p _ => suffix_ref_disregard_index p
   | _ => None
   end.
-(* Name::get_suffix_reference *)
-Definition suffix_ref (e : expr) : desig :=
-  match e with EDesig _ d => d | ESelected _ _ suf => suf | _ => None end.
-
 (* names.iter().flat_map(..).collect::<FnvHashMap<_,_>>() — iteration order of the map: first insertion *)
 Definition sens_map (names : list expr) : list (N * span) :=
   fold_left (fun m n => match suffix_ref_disregard_index n with
@@ -480,7 +557,10 @@ Fixpoint is_likely_clocked (root : N -> ent_kind) (e : expr) : bool :=
   | EAttr _ _ k _ => match k with AkEvent => true | _ => false end
   | ECall _ p _ =>
       match suffix_ref p with
-      | Some i => match root i with KFun1Bool => true | _ => false end
+      | Some i => match root i with
+                  | KOverloaded [_] true => true     (* signature.formals.len() == 1, return type BOOLEAN *)
+                  | _ => false
+                  end
       | None => false
       end
   | EDesig _ _ | ESelected _ _ _ | ESlice _ _ _ => false
@@ -526,7 +606,7 @@ Inductive diag :=
 | DSuperfluous (at_ : span).                        (* at the sensitivity-list entry *)
 
 (* lint_sensitivity_list; None = panic *)
-Definition lint_gen (old : bool) (root : N -> ent_kind) (p : process) : option (list diag) :=
+Definition lint_gen (ver : version) (root : N -> ent_kind) (p : process) : option (list diag) :=
   match p_sens p with
   | None => Some []
   | Some SensAll => Some []
@@ -536,15 +616,19 @@ Definition lint_gen (old : bool) (root : N -> ent_kind) (p : process) : option (
       | Some Sequential => Some []
       | Some Combinational =>
           let sl := sens_map names in
-          let step := if old then analyze_designator_old root sl else analyze_designator root sl in
-          let st := fold_left step (ev_stmts old (p_body p)) (mkChecker sl []) in
+          let step := match ver with
+                      | VPreF14 => analyze_designator_old root sl
+                      | _ => analyze_designator root sl
+                      end in
+          let st := fold_left step (ev_stmts root ver (p_body p)) (mkChecker sl []) in
           let missing := sort_by_pos (found st) in
           Some ((match missing with [] => [] | _ => [DMissing (p_kw p) missing] end)
                 ++ map (fun x : N * span => DSuperfluous (snd x)) (superfluous st))
       end
   end.
-Definition lint_model := lint_gen false.
-Definition lint_model_old := lint_gen true.
+Definition lint_model := lint_gen VNow.
+Definition lint_model_f20 := lint_gen VPreF20.   (* before 8599f6f *)
+Definition lint_model_old := lint_gen VPreF14.   (* before d3610d9 *)
 
 (* ---- the specification of the two diagnostics ---- *)
 Definition spec_missing (root : N -> ent_kind) (p : process) (names : list expr) : list (N * span) :=
@@ -563,11 +647,33 @@ Definition listed_signals (root : N -> ent_kind) (names : list expr) : bool :=
                     | None => false
                     end) names.
 
-(* a root for executable cases: ids in [slo,shi] are signals, ids in [flo,fhi] one-argument
-   boolean functions, everything else is something else *)
-Definition root_of (slo shi flo fhi : N) (i : N) : ent_kind :=
-  if (slo <=? i) && (i <=? shi) then KSignal
-  else if (flo <=? i) && (i <=? fhi) then KFun1Bool else KOther.
+(* the static semantics of the procedure calls as the SPEC sees it (`a_mode`) is what the code resolves:
+   for every association element, `is_out_mode_formal` holds exactly when the associated formal has mode out
+   (the callee and the formal are resolved: always the case in a design that analyses without errors) *)
+Fixpoint resolved_args (root : N -> ent_kind) (callee : expr) (idx : nat) (args : list assoc) : bool :=
+  match args with
+  | [] => true
+  | a :: r =>
+      Bool.eqb (is_out_mode_formal root callee idx (a_formal a)) (match a_mode a with MOut => true | _ => false end)
+      && resolved_args root callee (S idx) r
+  end.
+Fixpoint resolved_stmt (root : N -> ent_kind) (s : stmt) : bool :=
+  match s with
+  | SIf branches els =>
+      forallb (fun b : expr * list stmt => forallb (resolved_stmt root) (snd b)) branches
+      && forallb (resolved_stmt root) els
+  | SCase _ alts => forallb (forallb (resolved_stmt root)) alts
+  | SLoop _ body => forallb (resolved_stmt root) body
+  | SCall _ callee args => resolved_args root callee 0 args
+  | _ => true
+  end.
+Definition calls_resolved (root : N -> ent_kind) (p : process) : bool := forallb (resolved_stmt root) (p_body p).
+
+(* a root for executable cases: ids in [slo,shi] are signals, the other entities of interest are listed *)
+Fixpoint tab_lookup (tab : list (N * ent_kind)) (i : N) : ent_kind :=
+  match tab with [] => KOther | (k, v) :: r => if i =? k then v else tab_lookup r i end.
+Definition root_tab (slo shi : N) (tab : list (N * ent_kind)) (i : N) : ent_kind :=
+  if (slo <=? i) && (i <=? shi) then KSignal else tab_lookup tab i.
 
 (* ------------------------------------------------------------------------------------------ *)
 (* projections of the diagnostic list and the witness processes used in Props/C20.v            *)
@@ -583,7 +689,12 @@ Definition tk (n : N) : span := (n, n).
 Definition sg (n i : N) : expr := EDesig (tk n) (Some i).
 Definition lit (n : N) : expr := ELit (tk n).
 Definition assign (tn ti vn vi : N) : stmt := SSigAssign (sg tn ti) (RSimple (Some [(sg vn vi, None)])).
-Definition root6 : N -> ent_kind := root_of 1 6 100 103.
+(* signals 1..6; 200 = procedure pr(a, b, c, d : in bit); 201 = procedure po(signal a : in bit; signal o : out bit) *)
+Definition root6 : N -> ent_kind :=
+  root_tab 1 6 [(200, KOverloaded [301; 302; 303; 304] false); (201, KOverloaded [311; 312] false);
+                (301, KParam MIn false); (302, KParam MIn false); (303, KParam MIn false); (304, KParam MIn false);
+                (311, KParam MIn true); (312, KParam MOut true)].
+Definition arg (m : mode) (e : expr) : assoc := mkAssoc m None e.
 
 (* F14:  process (o) begin if a = 1 then o <= x; o2 <= z; elsif x = 2 then o <= y; end if; end process;
    tokens: process 0 ( 1 o 2 ) 3 begin 4 if 5 a 6 = 7 1 8 then 9 o 10 <= 11 x 12 ; 13 o2 14 <= 15 z 16 ; 17
@@ -595,13 +706,21 @@ Definition f14 : process :=
 (* F15:  process (o) begin pr(s4, s2, s3, s1); end process;   pr 5 ( 6 s4 7 , 8 s2 9 , 10 s3 11 , 12 s1 13 ) 14 *)
 Definition f15 : process :=
   mkProcess (tk 0) (Some (SensNames [sg 2 5]))
-    [SCall (5, 14) (EDesig (tk 5) (Some 200)) [(MIn, sg 7 4); (MIn, sg 9 2); (MIn, sg 11 3); (MIn, sg 13 1)]].
+    [SCall (5, 14) (EDesig (tk 5) (Some 200)) [arg MIn (sg 7 4); arg MIn (sg 9 2); arg MIn (sg 11 3); arg MIn (sg 13 1)]].
 (* F20:  process (a) begin po(a, o); end process;   po 5 ( 6 a 7 , 8 o 9 ) 10;  o is the actual of an out parameter *)
 Definition f20 : process :=
   mkProcess (tk 0) (Some (SensNames [sg 2 1]))
-    [SCall (5, 10) (EDesig (tk 5) (Some 200)) [(MIn, sg 7 1); (MOut, sg 9 5)]].
+    [SCall (5, 10) (EDesig (tk 5) (Some 201)) [arg MIn (sg 7 1); arg MOut (sg 9 5)]].
+(* the same call with a named association and an indexed out actual:  po ( o => v ( i ) , a => a ) ;
+   po 5 ( 6 o 7 => 8 v 9 ( 10 i 11 ) 12 , 13 a 14 => 15 a 16 ) 17;  v = 6, i = 3: i is read, v is written *)
+Definition f20n : process :=
+  mkProcess (tk 0) (Some (SensNames [sg 2 1]))
+    [SCall (5, 17) (EDesig (tk 5) (Some 201))
+       [mkAssoc MOut (Some (EDesig (tk 7) (Some 312))) (ECall (9, 12) (sg 9 6) [sg 11 3]);
+        mkAssoc MIn (Some (EDesig (tk 14) (Some 311))) (sg 16 1)]].
 
 Definition hyps (root : N -> ent_kind) (p : process) (names : list expr) : Prop :=
   p_sens p = Some (SensNames names) /\ get_likely_process_category root p = Some Combinational /\
-  in_family root p = true /\ wf_pos root p = true /\ listed_signals root names = true.
+  in_family root p = true /\ calls_resolved root p = true /\ wf_pos root p = true /\
+  listed_signals root names = true.
 
